@@ -37,6 +37,47 @@ CHECKS["C11"] = dict(
     note="Oracle: OData 4.01 Part 2 5.1.1.5-5.1.1.13 function list. Trusted: SLY symbol naming (replicated).",
     ref="5 C11")
 
+CHECKS["C14"] = dict(
+    technique="abstract interpretation of every AliasRewriter handler per node class + traversal-position analysis (static)",
+    text="Decides exact-substitution structurally for every AST and alias map: the handlers that can return a table entry "
+         "are exactly Identifier/Attribute; hit returns the entry without descending, miss rebuilds Attribute(visit(owner), attr); "
+         "no naming position (Call.func, NamedParam.name, Lambda.identifier) reaches a substituting handler and lambda-bound "
+         "variables are shielded; everything else is the generic rebuild (C16); the table is parse(key)->parse(value) built "
+         "once with supplied-or-fresh lexer/parser. The bijection/inverse clause is implied only as far as exact substitution goes.",
+    note="Relies on C16 (generic transformer) and on dataclass equality/hash for table lookup. Known finding F23.",
+    ref="5 C14")
+CHECKS["C16"] = dict(
+    technique="schema analysis + abstract interpretation of generic_visit/visit per node class and visitor; mutation scan (static)",
+    text="Decides the property by structural induction over local facts for every node class of the schema: field container "
+         "shapes are traversable; both generic_visit implementations call self.visit exactly once per contained node in field "
+         "then list order; the transformer returns type(node)(**fields) with fresh lists; visit dispatches on 'visit_'+class "
+         "name with generic_visit as default for all shipped visitors; node classes are frozen dataclasses with generated "
+         "equality; no function stores to/deletes from/mutates a node parameter or its lists.",
+    note="Trusted: dataclasses semantics (frozen, eq). Alias tracking in the mutation scan is intra-procedural.",
+    ref="5 C16")
+CHECKS["C17"] = dict(
+    technique="abstract interpretation of IdentifierStripper over the shape domain of Attribute nodes (static)",
+    text="Decides the property for all expressions and variable names: per shape of Attribute (owner equals the variable / "
+         "other identifier / longer path) the handler must return Identifier(attr) / the node unchanged / "
+         "Attribute(visit(owner), attr); the decision must compare the whole owner with the variable; no other kind is "
+         "special-cased; the shorthand constructs the stripper with its first argument and returns visit(expression). "
+         "Induction over path depth plus C16 gives every other node unchanged.",
+    note="Relies on C16 for the inherited generic rebuild.", ref="5 C17")
+CHECKS["C18"] = dict(
+    technique="exhaustive abstract evaluation of infer_return_type/infer_type/typecheck over name, kind and type grids vs oracle (static)",
+    text="Decides 'never a wrong type': infer_return_type is evaluated for every built-in, near-miss and foreign-namespace "
+         "name (answers must equal the OData return type, be argument-derived within the minimum arity, or unknown); "
+         "infer_type for every node class (unknown or the actual type; never definite for data-dependent kinds); typecheck "
+         "raises ArgumentTypeException exactly when the inferred type is known and not allowed.",
+    note="Oracle: OData 4.01 function return types.", ref="5 C18")
+CHECKS["C20"] = dict(
+    technique="effect analysis of all lexer/parser callbacks (abstract interpretation events) + syntactic shared-state rules + SLY driver shape re-verification (static)",
+    text="Decides reuse/determinism as far as this repository's code is concerned, for every history: no callback stores on "
+         "the instance, class, module or any object not created by the current parse; no mutable defaults, memoisation, "
+         "global/nonlocal; lists inside nodes are fresh; nothing iterates a set (hash seed); supplied lexer/parser are used "
+         "exactly when given and their truthiness is safe; the installed SLY driver still resets per-call state.",
+    note="Trusted: CPython, SLY internals beyond the re-verified reset shape.", ref="5 C20")
+
 NOT_YET = {}
 
 PENDING_REASON = "check not built yet in this session (work in progress; see DESIGN.md section 8)"
